@@ -25,7 +25,7 @@ from .. import render_common as rc
 
 PROP = "C10"
 THEOREMS = ["lexer_neutral_without_quotes", "plain_template_takes_stock_path", "only_marked_templates_differ",
-            "block_without_override", "override_wins", "subst_without_super", "override_without_super_replaces"]
+            "block_without_override", "override_wins", "subst_without_super", "override_without_super_replaces", "flatten_plain", "flatten_leaves_plain_templates_alone"]
 
 ORIG = {}
 
@@ -308,12 +308,12 @@ def run_compose(chk, n):
         old_p_nodes = tplgen.p_nodes
         try:
             tplgen.p_nodes = p_family
-            a = tplgen.run_real(famprog, limit=3.0)
+            a = tplgen.run_real(famprog, limit=20.0)
         finally:
             tplgen.p_nodes = old_p_nodes
             for name in fam:
                 loader.templates_dict.pop(name, None)
-        b = tplgen.run_real(flat, limit=3.0)
+        b = tplgen.run_real(flat, limit=20.0)
         chk.count("compose", 1, validated=2)
         chk.branch(["shared_block_names" if shared else "distinct_block_names", "mode:" + ("isolated" if p["isolated"] else "django"),
                     "families:%d" % len([k for k in fam if k.endswith("_base")])])
@@ -418,12 +418,12 @@ def run_compose_directed(chk, n):
         old = tplgen.p_nodes
         try:
             tplgen.p_nodes = p_family
-            a = tplgen.run_real(famprog, limit=3.0)
+            a = tplgen.run_real(famprog, limit=20.0)
         finally:
             tplgen.p_nodes = old
             for name in fam:
                 loader.templates_dict.pop(name, None)
-        b = tplgen.run_real(flat, limit=3.0)
+        b = tplgen.run_real(flat, limit=20.0)
         chk.count("compose-directed", 1, validated=2)
         chk.branch(["schema:%d" % schema, "shared" if shared else "distinct"])
         oa = a["err"] or tplgen.canon_real(a["out"], a["hash2name"])
